@@ -135,6 +135,86 @@ pub const ESC_BAD: Table = &[
 
 pub const ENDINGS: Table = &[(6, "\n"), (3, "\r\n"), (1, "\r"), (1, "\n\n")];
 
+/// Character classes for the synthesized words: (first, last) inclusive
+/// ranges, stratified over scripts and line-break / width / general
+/// categories so that a change keyed on *which* characters a word is made of
+/// (case, non-ASCII letters or digits next to a hyphen, Hangul, Thai,
+/// right-to-left scripts, emoji modifiers, fullwidth or halfwidth forms,
+/// astral planes) meets such a word inside an otherwise ordinary text.
+/// No ESC, no U+0020, no CR/LF: those stay under the control of the mixes.
+const SYNTH_CLASSES: &[&[(u32, u32)]] = &[
+    &[(0x61, 0x7a)],                                  // a-z
+    &[(0x41, 0x5a)],                                  // A-Z
+    &[(0x30, 0x39)],                                  // 0-9
+    &[(0x21, 0x2f), (0x3a, 0x40), (0x5b, 0x60), (0x7b, 0x7e)], // ASCII punctuation (with '-')
+    &[(0x2d, 0x2d)],                                  // '-'
+    &[(0xc0, 0x24f)],                                 // Latin-1 / Latin Extended letters
+    &[(0xa1, 0xbf)],                                  // Latin-1 punctuation and symbols
+    &[(0x370, 0x3ff), (0x400, 0x4ff)],                // Greek, Cyrillic
+    &[(0x5d0, 0x5ea), (0x620, 0x64a), (0x64b, 0x65f)], // Hebrew, Arabic (+ marks)
+    &[(0x660, 0x669), (0x6f0, 0x6f9), (0x966, 0x96f), (0xff10, 0xff19)], // non-ASCII digits
+    &[(0x900, 0x97f), (0xe01, 0xe5b)],                // Devanagari, Thai
+    &[(0x1100, 0x11ff), (0xac00, 0xd7a3)],            // Hangul jamo and syllables
+    &[(0x3041, 0x30ff), (0x3001, 0x303f)],            // kana, CJK punctuation
+    &[(0x4e00, 0x9fff), (0x3400, 0x4dbf)],            // CJK ideographs
+    &[(0xff01, 0xff60), (0xff61, 0xff9f), (0xffe0, 0xffee)], // fullwidth / halfwidth forms
+    &[(0x2000, 0x200f), (0x2010, 0x2027), (0x202a, 0x206f)], // general punctuation (no LS/PS)
+    &[(0x300, 0x36f), (0xfe00, 0xfe0f), (0x20d0, 0x20f0)], // combining marks, variation selectors
+    &[(0x1f300, 0x1f64f), (0x1f900, 0x1faff), (0x2600, 0x27bf)], // emoji and symbols
+    &[(0x1f3fb, 0x1f3ff), (0x1f1e6, 0x1f1ff)],        // skin tones, regional indicators
+    &[(0x1, 0x8), (0xe, 0x1a), (0x1c, 0x1f), (0x7f, 0x84), (0x86, 0x9f)], // controls
+    &[(0xad, 0xad), (0x58a, 0x58a), (0x2011, 0x2011), (0x2027, 0x2027), (0xf0b, 0xf0b)], // hyphen-like
+    &[(0x20000, 0x2a6df), (0x1d400, 0x1d7ff), (0xe0001, 0xe007f), (0x10fff0, 0x10ffff)], // astral
+    &[(0x2190, 0x22ff), (0x2500, 0x25ff), (0x20a0, 0x20bf)], // arrows, maths, box drawing, currency
+];
+
+/// 3072 deterministic words of 1..=6 characters (a fixed LCG, independent of
+/// the run's seed, so the table is part of the code; the *choice* of a word
+/// is proptest's). Two thirds stay within one class per word (a Greek word,
+/// a run of digits), the rest mix classes and often put a hyphen inside.
+pub fn synth_words() -> &'static [&'static str] {
+    static T: std::sync::OnceLock<Vec<&'static str>> = std::sync::OnceLock::new();
+    T.get_or_init(|| {
+        let mut st: u64 = 0x9e37_79b9_7f4a_7c15;
+        let mut next = move |n: u64| -> u64 {
+            st = st.wrapping_mul(6364136223846793005).wrapping_add(1442695040888963407);
+            ((st >> 33) % n.max(1)) as u64
+        };
+        let mut ch_of = |cls: usize, next: &mut dyn FnMut(u64) -> u64| -> char {
+            let ranges = SYNTH_CLASSES[cls];
+            let (lo, hi) = ranges[next(ranges.len() as u64) as usize];
+            loop {
+                let c = lo + next((hi - lo + 1) as u64) as u32;
+                if let Some(c) = char::from_u32(c) {
+                    if !matches!(c, ' ' | '\n' | '\r' | '\x1b') {
+                        return c;
+                    }
+                }
+            }
+        };
+        let mut out: Vec<&'static str> = Vec::new();
+        for i in 0..3072u64 {
+            let len = 1 + (next(6) * next(6) / 5).min(5) as usize + (i % 2) as usize;
+            let base = next(SYNTH_CLASSES.len() as u64) as usize;
+            let mixed = next(3) == 0;
+            let hyphen_at = if next(4) == 0 && len >= 3 { Some(1 + next(len as u64 - 2) as usize) } else { None };
+            let mut w = String::new();
+            for k in 0..len {
+                if Some(k) == hyphen_at {
+                    w.push('-');
+                    continue;
+                }
+                let cls = if mixed && next(2) == 0 { next(SYNTH_CLASSES.len() as u64) as usize } else { base };
+                w.push(ch_of(cls, &mut next));
+            }
+            out.push(Box::leak(w.into_boxed_str()));
+        }
+        // simpler (shorter) words first: proptest shrinks towards index 0
+        out.sort_by_key(|w| w.len());
+        out
+    })
+}
+
 fn table(t: Table) -> impl Strategy<Value = &'static str> {
     Union::new_weighted(t.iter().map(|(w, s)| (*w, Just(*s))).collect::<Vec<_>>())
 }
@@ -150,6 +230,8 @@ pub struct Mix {
     pub esc_tricky: u32,
     pub esc_bad: u32,
     pub endings: u32,
+    /// synthesized words (`synth_words`)
+    pub synth: u32,
 }
 
 impl Mix {
@@ -163,6 +245,7 @@ impl Mix {
         esc_tricky: 2,
         esc_bad: 4,
         endings: 7,
+        synth: 6,
     };
     /// ESC only in well-formed sequences that contain neither a space nor
     /// a hyphen.
@@ -175,6 +258,7 @@ impl Mix {
         esc_tricky: 0,
         esc_bad: 0,
         endings: 7,
+        synth: 6,
     };
     pub fn no_endings(mut self) -> Mix {
         self.endings = 0;
@@ -201,6 +285,10 @@ pub fn token(mix: Mix) -> BoxedStrategy<&'static str> {
     add(mix.esc_tricky, ESC_OK_TRICKY);
     add(mix.esc_bad, ESC_BAD);
     add(mix.endings, ENDINGS);
+    if mix.synth > 0 {
+        let tbl = synth_words();
+        arms.push((mix.synth, (0..tbl.len()).prop_map(move |i| tbl[i]).boxed()));
+    }
     Union::new_weighted(arms).boxed()
 }
 
